@@ -134,8 +134,8 @@ type conn struct {
 	dir    string // "in": the node accepted, "out": the node dialed
 	cli    net.Conn
 	srv    *recConn
-	req    *authReq // out: the node's handshake request as decrypted by the evil listener
-	reqRaw []byte   // out: its ECIES bytes
+	req    *authReq    // out: the node's handshake request as decrypted by the evil listener
+	reqRaw []byte      // out: its ECIES bytes
 	hsDone chan string // result of the node's DoHandshake ("" = ok)
 	hs     string      // "pending" | "ok" | error text
 	aes    []byte      // session key once the attacker completed a genuine handshake
@@ -298,7 +298,10 @@ func (c *conn) takeInbox() []int {
 
 // ---------------------------------------------------------------- quiescence by consistent goroutine snapshots
 
+var wireDebug = os.Getenv("WIRE_DEBUG") != ""
+
 type snapshot struct {
+	raw     []string // WIRE_DEBUG: state and top frames of every goroutine of the node / harness
 	busy    []string // goroutines of the node / harness that can still run (running, runnable, syscall)
 	blocked []string // goroutines waiting for a mutex / semaphore
 }
@@ -330,6 +333,17 @@ func topFrames(stack string, max int) string {
 	return strings.Join(fs, " < ")
 }
 
+// runtimeWait: the goroutine is parked by the runtime itself (allocation waiting for the collector, preemption) and goes on
+// without any input or timer - e.g. "GC assist wait" inside the 25 MiB allocation of AesDecrypt: not quiescent.
+func runtimeWait(state string) bool {
+	for _, p := range []string{"GC ", "garbage collection", "preempted", "stopping the world", "flushing proc caches", "force gc", "dumping heap", "wait for debug call"} {
+		if strings.HasPrefix(state, p) {
+			return true
+		}
+	}
+	return false
+}
+
 // snap takes one stop-the-world dump of all goroutines (runtime.Stack(all) stops the world, so the
 // picture is consistent) and classifies every goroutine that runs node or harness code.
 func snap() snapshot {
@@ -351,8 +365,11 @@ func snap() snapshot {
 		if j := strings.Index(state, ","); j >= 0 {
 			state = state[:j]
 		}
+		if wireDebug {
+			s.raw = append(s.raw, state+" | "+topFrames(g, 4))
+		}
 		switch {
-		case state == "running" || state == "runnable" || state == "syscall":
+		case state == "running" || state == "runnable" || state == "syscall" || runtimeWait(state):
 			s.busy = append(s.busy, topFrames(g, 3))
 		case strings.HasPrefix(state, "sync.Mutex") || strings.HasPrefix(state, "sync.RWMutex") || strings.HasPrefix(state, "semacquire"):
 			// WaitGroup.Wait also shows as semacquire: only lock acquisitions count
